@@ -34,6 +34,7 @@ type Obligation struct {
 	Model   string
 	SMTSize int
 	query   string
+	Replay  *ReplaySpec
 }
 
 type Exec struct {
@@ -231,10 +232,8 @@ func (x *Exec) val(st *State, fr *Frame, v ssa.Value) Value {
 }
 
 func (x *Exec) intTerm(t types.Type, n *big.Int) *Term {
-	if x.bv {
-		if bits, _, ok := intInfo(t); ok {
-			return BVLit(n, bits)
-		}
+	if bits, ok := x.bvOf(t); ok {
+		return BVLit(n, bits)
 	}
 	return IntBig(n)
 }
@@ -620,11 +619,7 @@ func (x *Exec) load(st *State, p *PtrVal, t types.Type) Value {
 	if p.Obj.Kind == ObjRegion {
 		rv := x.region(st, p.Obj)
 		if rv.Bytes != nil {
-			r := At(rv.Bytes, p.Idx)
-			if x.bv {
-				return Int2BV(r, 8)
-			}
-			return r
+			return x.byteAt(rv.Bytes, p.Idx)
 		}
 		return x.fromElem(st, Select(rv.Arr, p.Idx), p.Obj.Typ)
 	}
@@ -644,6 +639,14 @@ func (x *Exec) zeroElemOrNil(t types.Type) (z *Term) {
 		}
 	}()
 	return x.zeroElem(t)
+}
+
+// byteAt: the octet of a byte sequence; in bit-vector mode an 8-bit vector (atb), otherwise an integer (at).
+func (x *Exec) byteAt(s, i *Term) *Term {
+	if x.bv {
+		return App("atb", SBV(8), s, i)
+	}
+	return At(s, i)
 }
 
 func (x *Exec) isGlobalObj(o *Obj) bool {
@@ -845,6 +848,8 @@ func termBounds(t *Term) (lo, hi *big.Int, ok bool) {
 			}
 			return lo, hi, true
 		}
+	case "bv2nat":
+		return big.NewInt(0), new(big.Int).Sub(new(big.Int).Lsh(big.NewInt(1), uint(t.Args[0].S.W)), big.NewInt(1)), true
 	case "mod":
 		if t.Args[1].Op == "int" && t.Args[1].Num.Sign() > 0 {
 			return big.NewInt(0), new(big.Int).Sub(t.Args[1].Num, big.NewInt(1)), true
@@ -929,6 +934,9 @@ func (x *Exec) binop(st *State, in ssa.Instruction, o token.Token, a, b Value, x
 		return x.bvBinop(st, in, o, at, bt, xt, rt)
 	}
 	_, signed, _ := intInfo(xt)
+	if (o == token.SHL || o == token.SHR) && bt.S.IsBV() {
+		bt = BV2Int(bt) // shift counts may be of an unsigned (bit-vector) type while the operand is an int
+	}
 	switch o {
 	case token.ADD:
 		return x.wrap(Add(at, bt), rt)
@@ -972,6 +980,21 @@ func (x *Exec) binop(st *State, in ssa.Instruction, o token.Token, a, b Value, x
 		}
 		if m, ok := maskBits(at); ok && !signed {
 			return Mod(bt, Pow2(m))
+		}
+	}
+	// x<<k | y with 0 <= y < 2^k: the bit ranges are disjoint, so the OR is a sum
+	if o == token.OR {
+		for _, pr := range [][2]*Term{{at, bt}, {bt, at}} {
+			hi, lo := pr[0], pr[1]
+			if hi.Op == "*" && hi.Args[0].Op == "int" {
+				if k, ok := singleBit(hi.Args[0]); ok {
+					if l, h, known := x.bounds(lo); known && l.Sign() >= 0 && h.Cmp(new(big.Int).Lsh(big.NewInt(1), uint(k))) < 0 {
+						if l2, _, known2 := x.bounds(hi.Args[1]); known2 && l2.Sign() >= 0 {
+							return x.wrap(Add(hi, lo), rt)
+						}
+					}
+				}
+			}
 		}
 	}
 	// single-bit masks: x | 2^k, x & 2^k, x &^ 2^k on non-negative values
@@ -1060,6 +1083,9 @@ func (x *Exec) floatOp(o token.Token, a, b *Term) Value {
 func (x *Exec) bvBinop(st *State, in ssa.Instruction, o token.Token, a, b *Term, xt, rt types.Type) Value {
 	_, signed, _ := intInfo(xt)
 	// shifts may have operands of different widths
+	if (o == token.SHL || o == token.SHR) && b.S == SInt {
+		b = Int2BV(b, a.S.W)
+	}
 	if o == token.SHL || o == token.SHR {
 		if b.S.W != a.S.W {
 			b = BVZeroExt(b, a.S.W)
@@ -1305,6 +1331,19 @@ func (x *Exec) convert(st *State, in ssa.Instruction, v Value, from, to types.Ty
 	}
 	fb, fs, ok1 := intInfo(from)
 	tb, tsgn, ok2 := intInfo(to)
+	if ok1 && ok2 && x.bv {
+		_, fromBV := x.bvOf(from)
+		tbits, toBV := x.bvOf(to)
+		switch {
+		case fromBV && !toBV:
+			if fs {
+				panic(unsupported("signed bit-vector to int conversion"))
+			}
+			return BV2Int(t)
+		case !fromBV && toBV:
+			return Int2BV(t, tbits)
+		}
+	}
 	if ok1 && ok2 {
 		if t.S.IsBV() {
 			switch {
@@ -1445,19 +1484,11 @@ func (x *Exec) indexValue(st *State, fr *Frame, v *ssa.Index) Value {
 	switch b := base.(type) {
 	case *Term: // string
 		x.safety(st, "index", v, And(Le(IntLit(0), idx), Lt(idx, Len(b))), "string index in range")
-		r := At(b, idx)
-		if x.bv {
-			return Int2BV(r, 8)
-		}
-		return r
+		return x.byteAt(b, idx)
 	case *ArrVal:
 		x.safety(st, "index", v, And(Le(IntLit(0), idx), Lt(idx, IntLit(b.Typ.Len()))), "array index in range")
 		if b.Bytes != nil {
-			r := At(b.Bytes, idx)
-			if x.bv {
-				return Int2BV(r, 8)
-			}
-			return r
+			return x.byteAt(b.Bytes, idx)
 		}
 		if idx.Op == "int" {
 			return b.Elems[idx.Num.Int64()]
